@@ -215,12 +215,25 @@ theorem respects_readCharS_more (k : Nat) (acc : Bytes) : Respects (readCharS.mo
     unfold readCharS.more
     exact respects_bind respects_termRead fun d => ih _
 
+theorem respects_readKey_more (k : Nat) : Respects (readKey.more k) := by
+  induction k with
+  | zero => unfold readKey.more; exact respects_pure _
+  | succ k ih =>
+    unfold readKey.more
+    exact respects_bind respects_termRead fun _ => ih
+
+/-- `led_readkey()` cannot tell `KeyEq` states apart -/
+theorem respects_readKey : Respects readKey := by
+  unfold readKey
+  refine respects_bind respects_termRead fun c => respects_ite ?_ (respects_pure _)
+  exact respects_bind (respects_readKey_more _) fun _ => respects_pure _
+
 theorem respects_readCharS (c : Int) (kmap : Nat) : Respects (readCharS c kmap) := by
   unfold readCharS
   refine respects_ite ?_ (respects_ite ?_ (respects_ite ?_ (respects_pure _)))
   · exact respects_bind respects_termRead fun d => respects_pure _
-  · refine respects_bind respects_termRead fun c1 => respects_ite (respects_pure _) (respects_ite (respects_pure _) ?_)
-    exact respects_bind respects_termRead fun c2 => respects_ite (respects_pure _) (respects_pure _)
+  · refine respects_bind respects_readKey fun c1 => respects_ite (respects_pure _) (respects_ite (respects_pure _) ?_)
+    exact respects_bind respects_readKey fun c2 => respects_ite (respects_pure _) (respects_pure _)
   · exact respects_bind (respects_readCharS_more _ _) fun bs => respects_pure _
 
 theorem respects_viChar_go (f : Nat) : Respects (viChar.go f) := by
